@@ -17,6 +17,14 @@ def _runs(b: bytes) -> list:
     return out
 
 
+def _babs(b: bytes) -> dict:
+    if len(b) > 128:
+        rs = _runs(b)
+        if len(rs) <= 48:
+            return {"rle": rs}
+    return {"raw": list(b)}
+
+
 class InjectedIOError(OSError):
     """Raised by an instrumented stream at a chosen operation."""
 
@@ -37,17 +45,17 @@ class RecSink:
     def write(self, b):
         object.__setattr__(self, "_n", self._n + 1)
         if self._fail_at is not None and self._n == self._fail_at:
-            self._ev.append({"op": "wfail", "n": 0, "d": []})
+            self._ev.append({"op": "wfail", "n": 0, "d": {"raw": []}})
             raise InjectedIOError("injected write failure")
         b = bytes(b)
-        self._ev.append({"op": "w", "n": len(b), "d": _runs(b)})
+        self._ev.append({"op": "w", "n": len(b), "d": _babs(b)})
         self._data += b
         return len(b)
 
     def __getattr__(self, name):
         if name.startswith("__") and name.endswith("__"):
             raise AttributeError(name)
-        self._ev.append({"op": "other", "n": 0, "d": [], "name": name})
+        self._ev.append({"op": "other", "n": 0, "d": {"raw": []}, "name": name})
         raise AttributeError(f"RecSink has no attribute {name!r}")
 
     # harness-side accessors (not reachable by attribute lookup of public names)
